@@ -265,7 +265,7 @@ theorem block_roundtrip_of_facts (s : Bytes) (h : FirstByteOK s) : BlockRoundTri
     exact dropTrailingNL_snoc t x hx
 
 /-- what `blockLiteralSafe` guarantees about the first non-empty line -/
-theorem firstByteOK_of_blockLiteralSafe (s : Bytes) (h : blockLiteralSafe s = true) :
+theorem firstByteOK_of_blockLiteralSafe (P : IsPrint) (s : Bytes) (h : blockLiteralSafe P s = true) :
     FirstByteOK s := by
   unfold blockLiteralSafe at h
   split at h
@@ -281,7 +281,7 @@ theorem firstByteOK_of_blockLiteralSafe (s : Bytes) (h : blockLiteralSafe s = tr
           refine ⟨f, r, heq, ?_⟩
           intro h32; subst h32; simp at hf
 
-theorem block_roundtrip (s : Bytes) (h : blockLiteralSafe s = true) : BlockRoundTrips s :=
-  block_roundtrip_of_facts s (firstByteOK_of_blockLiteralSafe s h)
+theorem block_roundtrip (P : IsPrint) (s : Bytes) (h : blockLiteralSafe P s = true) : BlockRoundTrips s :=
+  block_roundtrip_of_facts s (firstByteOK_of_blockLiteralSafe P s h)
 
 end CueVerif.Yaml
